@@ -264,6 +264,9 @@ def oracle(err, req, evs, status):
                     return "`%s` ran after `fail %s` although it depends on its Ok value" % (bad[0], x)
         ran = [e.split()[1] for e in evs if e.startswith("eh ")]
         for h in ran:
+            if not (h[:1] == "x" and h[1:].isdigit()):
+                # e.g. a decoy of the imported opt-in handlers: registered for nothing, designated for nothing
+                return "error handler %s ran, but it is an opt-in handler (`default = false`) that is attached to no component: it serves nothing (%s failed)" % (h, failed)
             if not any(desig[x] == ("x", int(h[1:])) for x in failed):
                 return "error handler %s ran, but it is not the designated handler of anything that failed (%s)" % (h, failed)
         so = [e.split()[1] for e in evs if e.startswith("observer ")]
